@@ -31,6 +31,13 @@ namespace PPL = Parma_Polyhedra_Library;
 
 PPL::C_Polyhedron::C_Polyhedron(const NNC_Polyhedron& y, Complexity_Class)
   : Polyhedron(NECESSARILY_CLOSED, y.space_dimension(), UNIVERSE) {
+  // The closure of an empty polyhedron is empty: emptiness has to be
+  // detected before the strict inequalities are relaxed.
+  if (y.is_empty()) {
+    C_Polyhedron empty_ph(y.space_dimension(), EMPTY);
+    m_swap(empty_ph);
+    return;
+  }
   const Constraint_System& cs = y.constraints();
   for (Constraint_System::const_iterator i = cs.begin(),
          cs_end = cs.end(); i != cs_end; ++i) {
